@@ -1711,9 +1711,10 @@ class Exec:
         if r is not None:
             return r
         ka, kb = a.ty.kind, b.ty.kind
-        if isinstance(op, ast.Mult) and ka == "list" and kb == "int" and not self.spec:
+        if isinstance(op, ast.Mult) and kb == "int" and (ka == "list" or (ka == "raw" and a.t is not None and z3.is_seq(a.t))) \
+                and getattr(self, "bound_depth", 0) == 0:
             # [x] * n : a new list of max(n, 0) copies of x (only for one-element lists)
-            s0 = z3.simplify(self.seq(a))
+            s0 = a.t if ka == "raw" else self.seq(a)  # (not simplified: unit(nth(s, i)) would become seq.at)
             if z3.is_app_of(s0, z3.Z3_OP_SEQ_UNIT):
                 x = s0.arg(0)
                 n = S.un_int(b.t)
@@ -1722,6 +1723,8 @@ class Exec:
                 self.assume(z3.Length(r) == z3.If(n > 0, n, 0))
                 self.assume(z3.ForAll([j], z3.Implies(z3.And(0 <= j, j < z3.Length(r)), r[j] == x)))
                 self.assume(z3.ForAll([j], z3.Implies(z3.And(0 <= j, j < z3.Length(r)), S.ELT(r, j) == x), patterns=[S.ELT(r, j)]))
+                if self.spec or ka == "raw":
+                    return SV(r, T.RAW, aux=a.aux if ka == "raw" else self.elem_ty(a.ty))
                 return self.new_list(r, a.ty)
         if ka == "int" and kb == "int":
             x, y = S.un_int(a.t), S.un_int(b.t)
